@@ -513,6 +513,7 @@ func (m *otMap) apply(proxy otProxy, plan *otShapePlan, font *Font, buffer *Buff
 
 				c.lookupIndex = lookupIndex
 				c.lookupMask = lookup.mask
+				c.resetLastBase()
 				c.autoZWJ = lookup.autoZWJ
 				c.autoZWNJ = lookup.autoZWNJ
 				c.random = lookup.random
